@@ -93,9 +93,12 @@ def make_variant(base, rng, reference=False):
     members = [rng.randint(2, 4) if (c and rng.random() < 0.4) else 1 for c in conts]
     ext = (".fastq" if v["fmt"] == "fastq" else ".fasta") if reference else rng.choice(
         ([".fastq", ".fq", ""] if v["fmt"] == "fastq" else [".fasta", ".fa", ""]))
-    v["input"] = {"layout": layout, "ext": ext, "containers": conts, "members": members}
+    comments = rng.randint(1, 2) if (v["fmt"] == "fasta" and not reference and rng.random() < 0.3) else 0
+    if layout == "two" and cores > 1:
+        comments = 0  # known finding KF-C06-3 (owned by the C06 check)
+    v["input"] = {"layout": layout, "ext": ext, "containers": conts, "members": members, "comments": comments}
     v["member_seed"] = rng.randrange(1 << 30)
-    dims.update(layout=layout, containers=conts, members=members, cores=cores)
+    dims.update(layout=layout, containers=conts, members=members, cores=cores, comments=comments)
     # ---- outputs
     outs = []
     out_interleaved = False
